@@ -294,6 +294,16 @@ def gen(tier, seed):
         if m is not None:
             mods.append(m)
             n += 1
+    # wide shapes (13 fields: positions >= 10 sort before 2 as strings), declared order and reversed ranks
+    for k, (vk, r) in enumerate([('tuple', None), ('named', None), ('tuple', 'rev'), ('evariant', None)]):
+        fl = ['p'] * S.WIDE
+        shape = ('enum', [('unit', []), ('tuple', fl)]) if vk == 'evariant' else ('struct', [(vk, fl)])
+        rk = [S.WIDE - i for i in range(S.WIDE)] if r == 'rev' else [None] * S.WIDE
+        ranks = [None, rk] if vk == 'evariant' else [rk]
+        m = emit(f'm{n:04d}', f'{S.shape_id(shape)}/ranks={"reversed" if r else "default"}/{MODES[k]}/wide', shape, ranks, MODES[k])
+        if m is not None:
+            mods.append(m)
+            n += 1
     # exactly one compared field, and it carries a method (single-field shortcuts must not forget it): every trait set x shape kind
     k = 0
     for fl in (['m'], ['i', 'm', 'i'], ['m', 'i']):
